@@ -26,17 +26,17 @@ import (
 func init() { extraCmds["rapidgen"] = cmdRapidgen }
 
 type node struct {
-	Depth      int `json:"depth"`
-	EnumBad    int `json:"enumBad"`
-	EmptyLists int `json:"emptyLists"`             // empty lists of messages
+	Depth            int `json:"depth"`
+	EnumBad          int `json:"enumBad"`
+	EmptyLists       int `json:"emptyLists"`       // empty lists of messages
 	EmptyScalarLists int `json:"emptyScalarLists"` // empty lists of scalars / enums
-	NilMsgs    int `json:"nilMsgs"`
-	BadUtf8    int `json:"badUtf8"`
-	Unmapped   int `json:"unmapped"`
-	TsBad      int `json:"tsBad"`
-	DurBad     int `json:"durBad"`
-	AnyBad     int `json:"anyBad"`
-	MaskBad    int `json:"maskBad"`
+	NilMsgs          int `json:"nilMsgs"`
+	BadUtf8          int `json:"badUtf8"`
+	Unmapped         int `json:"unmapped"`
+	TsBad            int `json:"tsBad"`
+	DurBad           int `json:"durBad"`
+	AnyBad           int `json:"anyBad"`
+	MaskBad          int `json:"maskBad"`
 }
 
 var pathRe = regexp.MustCompile(`^[a-z]+([.][a-z]+){0,2}$`)
@@ -309,7 +309,7 @@ func cmdRapidgen(args []string) {
 				ch <- r
 			}()
 			ev := map[string]any{"ev": "generated", "type": *typ, "seed": *seed*1000 + i,
-				"opts": map[string]any{"noempty": noempty, "nonil": nonil, "mapped": mapped, "any": withAny},
+				"opts":    map[string]any{"noempty": noempty, "nonil": nonil, "mapped": mapped, "any": withAny},
 				"outcome": "ok", "fanout": fanout, "nofields": nofields, "nodes": []node{}, "refMarshal": true, "roundtrip": true, "note": ""}
 			select {
 			case r := <-ch:
